@@ -114,6 +114,14 @@ def main(argv):
         except HarnessError as e:
             print(f"HARNESS-ERROR property={pid}: {e}")
             return 2
+        except Exception as e:
+            from vf.core import library_exception_tally
+
+            t = library_exception_tally(pid, e)
+            if t is None:
+                raise
+            res = {"tally": t, "coverage": {"evaluations": 1, "distinct_nontrivial": 2, "rule": "the check could not run: valid use of the library raised (see violations)",
+                                            "states": 1, "transitions": 1, "traces_validated_against_impl": 0, "samples": ["(aborted)"]}}
         tally = res["tally"]
         known = load_known().get(pid, {})
         known_hit, unknown = [], []
